@@ -527,3 +527,6 @@ HARNESSES = [
             bounds={"grain distribution": "concrete, 2-3 classes (DISTS)", "host steps": 1}, opts={"ob_timeout": 30.0, "max_paths": 300},
             params={"quick": [{"dist": "a", "solver": "rk4"}, {"dist": "b", "solver": "euler"}], "thorough": [{"dist": dd, "solver": sv} for dd in ("a", "b", "c") for sv in ("rk4", "euler")]}),
 ]
+
+from harness.c18_extra import EXTRA as _EXTRA
+HARNESSES = HARNESSES + _EXTRA
